@@ -91,6 +91,7 @@ def path_oracle(res):
     scope = True
     for c in res['calls']:
         where = f'{c["kind"]} {c["uid"]}'
+        fails += c01.alias_failures(c)
         # every primitive update inside the element (connector / padding / VOA / fibre loss, noise additions)
         for k, e in enumerate(c['log']):
             if e['op'] not in PRIM_CLAIM or 'a' not in e:
@@ -105,6 +106,10 @@ def path_oracle(res):
                 fails += quality_failures(PRIM_CLAIM[e['op']], e['b'], e['a'], f'{where} update #{k + 1} {e["op"]}')
         b, a = c['before'], c['after']
         if a is None or not scope:
+            continue
+        if not c01.snap_finite(a):
+            fails += c01.state_failures(a, 'after ' + where)
+            scope = False
             continue
         idx = align(b, a)
         if idx is None:
@@ -143,9 +148,14 @@ def hist_oracle(case, init, steps):
         op = c['op']
         where = f'op #{k + 1} {op}'
         scope = scope and c01.in_scope_step(st)
-        if st['out'] != 'ok' or not scope or st['after'] is None:
+        for d in st.get('alias', []):
+            fails.append(('aliasing', f'{where} changed an object it was not applied to: {d}'))
+        if st['out'] != 'ok' or not scope or st['after'] is None or op == 'switch':
             continue
         b, a = st['before'], st['after']
+        if not c01.snap_finite(a):
+            fails += c01.state_failures(a, 'after ' + where)
+            continue
         if op in ('att_lin', 'att_db', 'gain_lin', 'gain_db'):
             fails += quality_failures('same', b, a, where)
         elif op == 'ase':
